@@ -255,7 +255,7 @@ def run(ctx):
     aligned_short_read(ctx, hcls, hp)
 
 
-def simulate(body, apps, cell, S, P):
+def simulate(body, apps, cell, S, P, switch=True):
     """Entries one iteration of the listing loop appends for a file whose size lies in `cell`, with the align switch on:
     [(kind, length Poly)], kind = 'file' | 'pad'."""
     env, out = {}, []
@@ -307,7 +307,7 @@ def simulate(body, apps, cell, S, P):
                 continue
             if contains(st, lambda x: x in app_stmt):
                 raise Unknown("entry appended inside `%s`" % norm(st)[:40])
-    FLAGS["self.align"] = True
+    FLAGS["self.align"] = switch
     try:
         run(body)
     except Skip:
@@ -343,10 +343,30 @@ def listing(ctx, fn, g, P):
     def flag(v):
         return lambda x: v if (isinstance(x, ast.Attribute) and x.attr == "align") else None
     off, on = C.reach_under(g, g.entry, flag(False)), C.reach_under(g, g.entry, flag(True))
-    ctx.decide("C15.3", fn, pn not in off and pn in on, "padding entries are appended only when self.align is set",
-               "padding entries are %s" % ("appended although self.align is off" if pn in off else "never appended when self.align is on"), loop.iter)
-    # the size the entries are computed from: the recorded length of the file entry
     rent = {const_str(k): v for k, v in zip(real[0].args[0].keys, real[0].args[0].values)}
+    if pn in off and pn in on and isinstance(rent.get("length"), ast.Name):
+        # no test on the switch stands in the way; the switch may still decide through a value (gap = ... if self.align else 0):
+        # evaluate one iteration with the switch off
+        verdict = True
+        for cell in CELLS:
+            try:
+                got = simulate(loop.body, apps, cell, rent["length"].id, P, switch=False)
+            except Unknown as exc:
+                verdict = None
+                why = str(exc)
+                break
+            if any(k == "pad" and v != Poly() for k, v in got):
+                verdict = False
+                break
+        if verdict is None:
+            ctx.undecided("C15.3", fn, "whether padding entries are listed with self.align off could not be evaluated (%s)" % why, loop.iter)
+        else:
+            ctx.decide("C15.3", fn, verdict, "with self.align off one iteration lists no padding entry (evaluated over the size cells)",
+                       "padding entries are appended although self.align is off", loop.iter)
+    else:
+        ctx.decide("C15.3", fn, pn not in off and pn in on, "padding entries are appended only when self.align is set",
+                   "padding entries are %s" % ("appended although self.align is off" if pn in off else "never appended when self.align is on"), loop.iter)
+    # the size the entries are computed from: the recorded length of the file entry
     if not isinstance(rent.get("length"), ast.Name):
         ctx.undecided("C15.2", fn, "the file entry's length `%s` is not a size variable" % norm(rent.get("length")), real[0])
         return
